@@ -408,7 +408,21 @@ func TestRelay(t *testing.T) {
 					x.mu.Unlock()
 				}
 				tun.Write(append(header(dst), payload...))
-				time.Sleep(60 * time.Millisecond)
+				// wait for the relayed datagram (a loaded machine can take longer than the usual millisecond), then a little
+				// longer so that a duplicate or a copy to another destination would be seen too
+				for w := 0; w < 100; w++ {
+					time.Sleep(20 * time.Millisecond)
+					got := 0
+					for i, x := range sinks {
+						x.mu.Lock()
+						got += len(x.got) - before[i]
+						x.mu.Unlock()
+					}
+					if got > 0 {
+						break
+					}
+				}
+				time.Sleep(40 * time.Millisecond)
 				arrived, intact, n := -1, false, 0
 				for i, x := range sinks {
 					x.mu.Lock()
